@@ -15,7 +15,15 @@ for f in sorted(glob.glob('/verif/seeded/*/meta.json')):
         res.append(f"{p}: " + ('**caught** (' + ', '.join(cls) + ')' if r['exit'] == 1 else ('silent' if r['exit'] == 0 else f"exit {r['exit']}")))
     files = sorted({l[6:].strip() for l in open(f.replace('meta.json', 'patch.diff')) if l.startswith('+++ b/')})
     rows.append(f"| {m['name']} | {m['property']} | {', '.join(files)} | {'; '.join(res)} | {m.get('history', '')} |")
-table = "| id | breaks | files | quick checks against it | remarks |\n|---|---|---|---|---|\n" + "\n".join(rows) + "\n"
+metas = [json.load(open(f)) for f in sorted(glob.glob('/verif/seeded/*/meta.json'))]
+noted = [m for m in metas if m.get('history')]
+remarks_only = [m for m in noted if m['name'] in ('C12-l', 'C12-m')]
+own = [m for m in metas if m['property'] in [p for p, r in m.get('check_results', {}).items() if r['exit'] == 1]]
+summary = (f"{len(metas)} variants in {len({m['name'].split('-')[1] for m in metas})} waves (each wave: one sub-agent per claimed property, "
+           f"a different hint about the kind of defect per wave). {len(metas) - len(noted) + len(remarks_only)} were reported by the checks as they stood when the variant arrived, "
+           f"{len(noted) - len(remarks_only)} only after the strengthening described in the remarks column (every one re-run afterwards), none is left unreported. "
+           f"{len(metas) - len(own)} are reported by the sibling check of the same world rather than by the check of the property they were aimed at (sequential defects of the filter aimed at C12 and reported by C11).\n\n")
+table = summary + "| id | breaks | files | quick checks against it | remarks |\n|---|---|---|---|---|\n" + "\n".join(rows) + "\n"
 p = '/verif/DESIGN.md'
 s = open(p).read()
 begin, end = '<!-- seeded-table-begin -->', '<!-- seeded-table-end -->'
